@@ -36,6 +36,9 @@ type Solver struct {
 	dead    bool
 	lastErr string
 	noModel bool
+	deadline time.Time // when set and passed, no fallback queries are attempted any more
+	dag      *dagPrinter
+	dagLvl   []int // number of DAG definitions alive below each stack level
 }
 
 func solverArgv(kind string, timeoutMs int) []string {
@@ -80,6 +83,7 @@ func (s *Solver) start() error {
 	}
 	s.cmd, s.in, s.out = cmd, in, bufio.NewReaderSize(outp, 1<<16)
 	s.stack = nil
+	s.dag, s.dagLvl = nil, nil
 	s.declLvl = map[string]int{}
 	s.dead = false
 	s.send("(set-option :produce-models true)")
@@ -194,6 +198,10 @@ func (s *Solver) popTo(n int) {
 	k := len(s.stack) - n
 	s.send(fmt.Sprintf("(pop %d)", k))
 	s.stack = s.stack[:n]
+	if s.dag != nil && len(s.dagLvl) > n {
+		s.dag.forget(s.dagLvl[n])
+		s.dagLvl = s.dagLvl[:n]
+	}
 	for name, l := range s.declLvl {
 		if l > n {
 			delete(s.declLvl, name)
@@ -202,10 +210,18 @@ func (s *Solver) popTo(n int) {
 }
 
 func (s *Solver) pushAssert(t *Term) {
+	if s.dag == nil {
+		s.dag = newDagPrinter()
+	}
+	s.dagLvl = append(s.dagLvl, len(s.dag.order))
 	s.send("(push 1)")
 	s.stack = append(s.stack, t)
 	s.declareVars(t)
-	s.send("(assert " + t.SMT() + ")")
+	defs, text := s.dag.render(t)
+	for _, d := range defs {
+		s.send(d)
+	}
+	s.send("(assert " + text + ")")
 }
 
 // Sync makes the solver's assertion stack equal to pc.
@@ -239,7 +255,10 @@ func (s *Solver) Check(pc []*Term) string {
 		s.Stats.Unsat++
 	default:
 		// incremental mode gave up: retry the whole conjunction from scratch on fresh solvers
-		if fr := s.fallback(); fr == "sat" || fr == "unsat" {
+		// (not once the exploration's time budget is used up: the path ends as inconclusive)
+		late := !s.deadline.IsZero() && time.Now().After(s.deadline)
+		if fr := ""; late {
+		} else if fr = s.fallback(); fr == "sat" || fr == "unsat" {
 			s.Stats.Fallbacks++
 			if r != "unknown" {
 				s.restart()
@@ -286,6 +305,9 @@ func (s *Solver) Values(ts []*Term) ([]*Term, error) {
 		}
 	}
 	for i, t := range ts {
+		if s.dag != nil && s.dag.treeSize(t) > 4*dagThreshold {
+			return nil, fmt.Errorf("get-value: term too large to print (%d)", s.dag.treeSize(t))
+		}
 		s.send("(get-value (" + t.SMT() + "))")
 		sx := s.readSexp()
 		if os.Getenv("SYMGO_DEBUG") != "" {
@@ -569,8 +591,13 @@ func (s *Solver) script(res string) string {
 			sb.WriteString("(assert " + ax.SMT() + ")\n")
 		}
 	}
+	dp := newDagPrinter()
 	for _, t := range s.stack {
-		sb.WriteString("(assert " + t.SMT() + ")\n")
+		defs, text := dp.render(t)
+		for _, d := range defs {
+			sb.WriteString(d + "\n")
+		}
+		sb.WriteString("(assert " + text + ")\n")
 	}
 	sb.WriteString("(check-sat)\n")
 	return sb.String()
